@@ -4,8 +4,9 @@ import coqlit as L
 import ftutil as U
 
 ID = "C20"
-THEOREMS = ["C20_roundtrip", "C20_roundtrip_whole", "C20_lookup", "C20_scan_B", "C20_scan_handles",
-            "C20_mask_positions", "C20_size_leaf", "C20_size_interior", "C20_model_meets_spec_partial"]
+THEOREMS = ["C20_roundtrip", "C20_roundtrip_whole", "C20_lookup", "C20_scan_U", "C20_scan_C", "C20_scan_B",
+            "C20_scan_B_mask", "C20_mask_positions", "C20_size_leaf", "C20_size_interior",
+            "C20_arrays_are_fibers", "C20_model_meets_spec"]
 COQ_IMPORTS = "From FT Require Import Model.Base Model.Obs Model.C20Codec Model.C20CodecCheck."
 CHECK_VO = ["Model/C20CodecCheck.v"]
 CHECKER = "c20_checker"
